@@ -85,7 +85,7 @@ OPS = ['parse_plain', 'parse_scoped', 'parse_macro', 'parse_import', 'parse_incl
        'const_K', 'const_aX', 'const_bX', 'interactive_const_X', 'const_dup', 'enter_interactive',
        'exit_interactive', 'operative_str_fails', 'config_str_fails', 'const_gin_namespace',
        'singleton_with_finalizer', 'parse_static_import_gin', 'parse_dynamic', 'config_str_plain', 'const_array',
-       'const_required_alias']
+       'const_required_alias', 'lookup_short_X']
 KEYS = ['c20.f.a', 'c20.f.b', 's/c20.f.a', 'c20.user.x', 'k/gin.singleton.constructor']
 SING = 'c20.user.x = @k/gin.singleton()\nk/gin.singleton.constructor = @c20.Obj\n'
 
@@ -194,6 +194,9 @@ def do_op(op):
       gin.constant('c20.ARR', ARR)   # comparisons are element-wise, the truth value of the result is ambiguous
     elif op == 'const_required_alias':
       gin.constant('c20.REQ', gin.REQUIRED)
+    elif op == 'lookup_short_X':
+      gin.query_parameter('X')          # a constant looked up by a shorter (partial) name; fails when none / several match
+      gin.parse_config('c20.user.x = %X')
     return 'ok'
   except Exception as e:  # pylint: disable=broad-except
     return type(e).__name__
@@ -388,9 +391,28 @@ class World:
             res.w('clear_with_interactive_constants')
       else:
         left = sorted(cfg._CONSTANTS._selector_map)
-        if left != ['gin.REQUIRED'] or cobs['gin.REQUIRED'] is not gin.REQUIRED:
+        # through the API: every (partial) name of a cleared constant is as unknown as a never-defined one, and free
+        still = []
+        for n in sorted(consts):
+          parts = n.split('.')
+          for i in range(len(parts)):
+            short = '.'.join(parts[i:])
+            try:
+              gin.query_parameter(short)
+              still.append(short + ': still resolves')
+            except ValueError:
+              pass
+            except Exception as e:  # pylint: disable=broad-except
+              still.append('%s: %s instead of ValueError' % (short, type(e).__name__))
+        for short in ('X', 'K', 'ARR'):
+          try:
+            gin.constant(short, 1)
+          except Exception as e:  # pylint: disable=broad-except
+            still.append('%s cannot be defined: %r' % (short, e))
+        gin.clear_config(clear_constants=True)
+        if left != ['gin.REQUIRED'] or cobs['gin.REQUIRED'] is not gin.REQUIRED or still:
           res.violation('constants_not_cleared', 'history %r: after clear_config(clear_constants=True) constants '
-                        'left: %r' % (hist, left), art)
+                        'left: %r %r' % (hist, left, still), art)
         elif consts:
           res.w('constants_cleared')
       got = observe()
